@@ -204,7 +204,7 @@ static void sink(const unsigned char *s, size_t n, void *arg) {
         case EEAV_LPART_UNQUOTED_FWS: if (!(m == 2 || (m == 3 && (REF_OPTS & RO_RFC5322)))) bad = "only the RFC 5322 rules have this condition"; else if (!has_byte(L, ln, ' ', ' ') && !has_byte(L, ln, 9, 10) && !has_byte(L, ln, 13, 13)) bad = "local part has no whitespace"; break;
         case EEAV_LPART_INVALID_FOLDING: if (m != 0) bad = "only mode 822 has folding"; else if (!has_byte(L, ln, '\r', '\r')) bad = "local part has no CR"; break;
         case EEAV_LPART_INVALID_UTF8: if (m != 3) bad = "only mode 6531 decodes UTF-8"; else if (ref_utf8_valid(L, ln)) bad = "local part is well-formed UTF-8"; break;
-        case EEAV_DOMAIN_EMPTY: if (!(at < 0 || dn == 0)) bad = "there is a non-empty domain"; break;
+        case EEAV_DOMAIN_EMPTY: if (!(at < 0 || dn == 0 || (m == 3 && ddn == 0))) bad = "there is a non-empty domain"; break;   /* mode 6531: the A-label form may be empty (U+00AD is mapped to nothing) */
         case EEAV_DOMAIN_LABEL_TOO_LONG: if (!(whyset & (1 << RD_LABEL_TOO_LONG))) bad = "no label is longer than 63"; break;
         case EEAV_DOMAIN_MISPLACED_HYPHEN: if (!(whyset & (1 << RD_HYPHEN))) bad = "no label starts or ends with '-'"; break;
         case EEAV_DOMAIN_MISPLACED_DELIMITER: if (!(whyset & (1 << RD_EMPTY_LABEL))) bad = "no empty label"; break;
